@@ -22,6 +22,7 @@ import (
 
 	"github.com/metal-toolbox/audito-maldito/internal/common"
 	"github.com/metal-toolbox/audito-maldito/internal/verif/dump"
+	"github.com/metal-toolbox/audito-maldito/internal/verif/vsync"
 	"github.com/metal-toolbox/audito-maldito/processors/auditd/sessiontracker"
 )
 
@@ -346,6 +347,7 @@ func nthPerm(n, k int) []int {
 }
 
 func init() {
+	vsync.LockTimeout = 3 * time.Second
 	common.VerifIterOrder = func(owner any, n int) []int {
 		if n <= 1 || n > 4 {
 			return nthPerm(n, 0)
